@@ -10,4 +10,5 @@ pub mod refnum;
 pub mod cbor;
 pub mod gen;
 pub mod cddl;
+pub mod mutate;
 pub mod props;
